@@ -20,7 +20,10 @@ Brief(f) == [loaded |-> f.loaded, nbytes |-> f.nbytes, nhash |-> f.nhash, flags 
 VerdictT(p, e, s) ==
   IF "panic" \in DOMAIN e THEN V("panic", e.op, e.panic)
   ELSE
-  CASE e.op \in {"LoadFilter", "Add", "AddOutPoint", "Skipped"} -> OK        \* judged by C09
+  CASE e.op \in {"LoadFilter", "Reload", "Add", "AddOutPoint", "Skipped"} -> OK        \* judged by C09
+    [] e.op = "Matches" ->
+         LET r == MatchesRes(p, Bip37Idx(p, e.item)) IN
+         IF ~ResOK(r, e.ret) THEN V("bip37-membership", r, e.ret) ELSE OK
     [] e.op = "MatchTx" ->
          IF s.loaded /\ e.post.pop # Cardinality(s.bits) THEN V("logged-popcount", Cardinality(s.bits), e.post.pop)
          ELSE IF \E var \in Variants : LET x == MatchTxSpec(p, e.tx, var) IN x.ret = e.ret /\ x.f = s THEN OK
